@@ -36,6 +36,7 @@ func c01(c *Ctx) {
 		ec.meta["gov"] = fmt.Sprint(json.Valid(obj) && bytes.HasPrefix(obj, []byte("{")))
 		c.Emit(ec.sx, L(B(out)), ec.meta)
 	}
+	reportFloatMonitor(c)
 }
 
 func init() { registry["C01"] = c01 }
